@@ -234,7 +234,8 @@ func (w *Witness) Update(ctx context.Context, logID string, oldSize uint64, next
 	if next.Size == 0 {
 		// SPEC:  The proof MUST be empty if the old size is zero.
 		if len(cProof) > 0 {
-			return nil, fmt.Errorf("oldSize=0 but non-zero proof supplied")
+			counterInvalidConsistency.Inc(logID)
+			return prevRaw, ErrInvalidProof
 		}
 		signed, err := w.signChkpt(nextNote)
 		if err != nil {
